@@ -13,7 +13,8 @@ RULE_TEXT = ("The implementation is matched clause by clause against the abstrac
              "crate; C09-H the blanket ErrorHandler pushes its argument exactly once; NEXT? pops once and answers "
              "(number, text) or (0, \"\"); COUNt? answers error_count; push/pop have no other caller; C09-T number() "
              "and the text table cover every variant, numbers agree with the SCPI-1999 table, -350/-113 texts as stated."
-             " C09-D: on every witness interface with ErrorCommands each spelling of SYSTem:ERRor[:NEXT]? / :COUNt? reaches exactly system_error_next / system_error_count through the emitted trie and the generated dispatcher.")
+             " C09-D: on every witness interface with ErrorCommands each spelling of SYSTem:ERRor[:NEXT]? / :COUNt? reaches exactly system_error_next / system_error_count through the emitted trie and the generated dispatcher."
+             " C09-K: the buffer discipline of process (rules K1-K7 of C07) - one response buffer per message, nothing left over at a back-edge.")
 
 Q = "<microscpi::error_queue::StaticErrorQueue<N> as microscpi::error_queue::ErrorQueue>::"
 DEQ = "heapless::deque::Deque::"
@@ -262,6 +263,9 @@ def run(ck):
             ck.judge(ok, "C09-T", "error-table:" + v, "%s -> %s, %r" % (v, n_, t_),
                      "%s -> number %s (SCPI-1999: %s), text %r%s" % (v, n_, SCPI.get(v), t_, " (stated: %r)" % STATED_TEXT[v] if v in STATED_TEXT else ""))
     rule_D(ck)
+    # every response of the error queries reaches the controller whole: one response buffer per message (K-rules of C07)
+    import c07
+    c07.rule_K(ck, lib, "C09-K")
 
 
 def rule_D(ck):
